@@ -28,6 +28,8 @@ mod slot_map;
 mod sparse;
 mod sparse_map;
 pub mod tutorial;
+#[cfg(evenio_verif)]
+pub mod verif;
 pub mod world;
 
 #[cfg(feature = "rayon")]
